@@ -405,3 +405,49 @@ def gen_necessary_conflict(rnd):
         incompat.append([rnd.choice(opts[third]), rnd.choice(opts[victim])])
     return {'nodes': nodes, 'edges': edges, 'sel': sel, 'incompat': incompat, 'constraints': [], 'conn': [],
             'start': ['S']}
+
+
+def gen_group_conditional(rnd):
+    """A grouping connector whose first member is permanent and whose other members each hang below one option of a
+    selection choice (the last option may add none): every selection scenario has the SAME connectors existing on the
+    connection-choice level (the grouping node is always there) but another aggregated degree -- scenarios that differ
+    only in a degree override, not in which nodes exist."""
+    n_mem = rnd.randint(2, 3)
+    mem_deg = [rnd.choice([{'list': [1]}, {'list': [1]}, {'list': [0, 1]}, {'list': [2]}, {'list': [1, 2]}])
+               for _ in range(n_mem)]
+    nodes = [{'id': 'Root', 'kind': 'named'}]
+    edges = []
+    members = []
+    for i, d in enumerate(mem_deg):
+        m = 'G%d' % i
+        nodes.append({'id': m, 'kind': 'conn', 'deg': d, 'rep': False})
+        members.append(m)
+    nodes.append({'id': 'Grp', 'kind': 'grp'})
+    edges.append(['Root', 'G0'])
+    n_opt = n_mem - 1 + (1 if rnd.random() < .6 else 0)
+    opts = []
+    for j in range(max(n_opt, 2)):
+        o = 'O%d' % j
+        nodes.append({'id': o, 'kind': 'named'})
+        opts.append(o)
+        if j + 1 < n_mem:
+            edges.append([o, members[j + 1]])
+    other = []
+    if rnd.random() < .7:
+        nodes.append({'id': 'S', 'kind': 'conn', 'deg': rnd.choice([{'list': [0, 1, 2]}, {'list': [0, 1]}, {'min': 0}]),
+                      'rep': rnd.random() < .3})
+        edges.append(['Root', 'S'])
+        other.append('S')
+    tgts = []
+    for j in range(rnd.randint(2, 3)):
+        t = 'T%d' % j
+        nodes.append({'id': t, 'kind': 'conn', 'deg': rnd.choice([{'list': [0, 1, 2]}, {'list': [0, 1]}, {'min': 0, 'max': 2},
+                                                                 {'list': [1, 2]}]), 'rep': rnd.random() < .3})
+        edges.append(['Root', t])
+        tgts.append(t)
+    grp_side = [{'grp': 'Grp', 'members': members}] + other
+    flip = rnd.random() < .3
+    conn = [{'id': 'K', 'src': tgts if flip else grp_side, 'tgt': grp_side if flip else tgts, 'exclude': []}]
+    sel = [{'key': 'X', 'id': 'X', 'origin': 'Root', 'options': opts}]
+    return {'nodes': nodes, 'edges': edges, 'sel': sel, 'incompat': [], 'constraints': [], 'conn': conn,
+            'start': ['Root']}
